@@ -38,6 +38,7 @@ type Job struct {
 	Seed               uint64 `json:"seed"`
 	StopAfterViolation int    `json:"stop_after_violation"`
 	MaxWallS           int    `json:"max_wall_s"`
+	Params             map[string]int `json:"params"` // values of zz.Param (bounds a tier may raise)
 }
 
 type JobResult struct {
@@ -53,6 +54,8 @@ type JobResult struct {
 	SolverUnsat  int                      `json:"solver_unsat"`
 	SolverUnk    int                      `json:"solver_unknown"`
 	SolverTimeS  float64                  `json:"solver_time_s"`
+	SolverSendS  float64                  `json:"solver_send_s"`
+	SolverBytes  int64                    `json:"solver_bytes"`
 	WallS        float64                  `json:"wall_s"`
 	Unknowns     int                      `json:"unknowns"`
 	Violations   []*Violation             `json:"violations"`
@@ -269,7 +272,7 @@ func runJob(prog *ssa.Program, job Job, trace bool, logDir string) (res *JobResu
 	ts := NewTermStore()
 	cfg := Config{
 		MaxUnwind: job.Unwind, MaxSteps: job.Steps, MaxPaths: job.MaxPaths, PanicsOK: job.PanicsOK,
-		Shard: job.Shard, NShards: job.NShards, Trace: trace, ThreadMode: job.Threads, MaxSwitches: job.Switches,
+		Shard: job.Shard, NShards: job.NShards, Trace: trace, ThreadMode: job.Threads, MaxSwitches: job.Switches, Params: job.Params,
 		MaxEnum: job.MaxEnum, Seed: job.Seed, StopAfterViolation: job.StopAfterViolation, MaxWallS: job.MaxWallS,
 	}
 	if cfg.MaxSteps == 0 {
@@ -286,6 +289,8 @@ func runJob(prog *ssa.Program, job Job, trace bool, logDir string) (res *JobResu
 	res.SolverQ = sol.Queries
 	res.SolverSat, res.SolverUnsat, res.SolverUnk = sol.NSat, sol.NUnsat, sol.NUnk
 	res.SolverTimeS = sol.Time.Seconds()
+	res.SolverSendS = sol.SendT.Seconds()
+	res.SolverBytes = sol.SentBytes
 	res.Unknowns = ex.Unknowns
 	for _, l := range ex.VioOrder {
 		res.Violations = append(res.Violations, ex.Violations[l])
